@@ -23,7 +23,7 @@ BOUNDS = {
     'quick': {'stream': '<= 4 bytes over {delimiter byte(s), other byte}', 'script': '2 receive calls (recv_until with/without delimiter and maxsize, recv_size, peek, recv, recv_close), sizes 0..4',
               'chunkings': 'all 2^(n-1)', 'recvsize': '1..2', 'timeouts': 'none or one socket.timeout at any recv, none or one clock jump past the deadline',
               'send': '<= 3 send/buffer/flush calls, every partial-send pattern', 'netstring': '2 payloads <= 2 bytes over {":", ",", digit, other}'},
-    'thorough': {'stream': '<= 6 bytes', 'script': '3 calls'},
+    'thorough': {'stream': '<= 4 bytes with 2 calls; <= 2 bytes with 3 calls'},
 }
 ASSUMPTIONS = ['recv(n) is called repeatedly until n bytes or end of stream (any non-empty prefix is a legal return value)', 'the socket delivers the stream in order, each recv(n) returning at most n bytes of the next chunk; b"" means closed',
                'a call that raised Timeout is retried by the caller (statement)']
@@ -381,8 +381,13 @@ def obligations(tier):
     T = 170 if q else 1500
     for dsel in range(3):
         for op1 in range(len(RECV_OPS)):
-            obs.append(Ob('recv_law', timeout=T, pins={'delim': dsel, 'op1': op1, 'nmax': 3 if q else 5, 'nops': 2 if q else 3},
+            obs.append(Ob('recv_law', timeout=T, pins={'delim': dsel, 'op1': op1, 'nmax': 3 if q else 4, 'nops': 2},
                           need_kinds=('straddle',) if dsel else ()))
+    if not q:
+        # three calls on shorter streams
+        for dsel in range(3):
+            for op1 in range(len(RECV_OPS)):
+                obs.append(Ob('recv_law', timeout=T, pins={'delim': dsel, 'op1': op1, 'nmax': 2, 'nops': 3}))
     obs.append(Ob('send_law', timeout=T, pins={'nops': 3}))
     obs.append(Ob('ns_law', timeout=T, need_kinds=('written',)))
     return obs
